@@ -126,7 +126,8 @@ void h_ctx_clone(void) {
     INPUT(secp256k1_context, src);
     INPUT(size_t, k);
     secp256k1_context src0, *r; void *buf;
-    verif_ctx_init(&src);
+    INPUT(int, cdecl_);
+    verif_ctx_init(&src); src.declassify = cdecl_;
     src0 = src;
     __CPROVER_assume(k < sizeof(secp256k1_context));
     RESET()
@@ -169,7 +170,8 @@ void h_ctx_destroy(void) {
     INPUT(secp256k1_context, d);
     INPUT(size_t, k); INPUT(_Bool, use_null);
     secp256k1_context d0, st0, *h;
-    verif_ctx_init(&d);
+    INPUT(int, ddecl);
+    verif_ctx_init(&d); d.declassify = ddecl;
     d0 = d; st0 = *secp256k1_context_static;
     __CPROVER_assume(k < sizeof(secp256k1_context));
     /* preallocated_destroy on a caller-owned object */
@@ -211,7 +213,8 @@ void h_ctx_randomize(void) {
     INPUT_ARR(unsigned char, seed, 32); INPUT(_Bool, use_seed);
     INPUT(size_t, k);
     secp256k1_context rc0; int ret;
-    verif_ctx_init(&rc);
+    INPUT(int, rdecl);
+    verif_ctx_init(&rc); rc.declassify = rdecl;   /* arbitrary: a before/after comparison cannot see a write of the value already there */
     rc.hash_ctx.fn_sha256_compression = secp256k1_sha256_transform;
     __CPROVER_assume(k < sizeof(secp256k1_context));
     rc0 = rc;
@@ -247,7 +250,8 @@ void h_ctx_setters(void) {
     INPUT(uint64_t, cookie);
     secp256k1_context sc0, st0;
     const size_t ill_off = offsetof(secp256k1_context, illegal_callback), err_off = offsetof(secp256k1_context, error_callback), hash_off = offsetof(secp256k1_context, hash_ctx);
-    verif_ctx_init(&sc);
+    INPUT(int, sdecl);
+    verif_ctx_init(&sc); sc.declassify = sdecl;
     sc.hash_ctx.fn_sha256_compression = secp256k1_sha256_transform;
     __CPROVER_assume(k < sizeof(secp256k1_context));
     sc0 = sc; st0 = *secp256k1_context_static;
